@@ -52,7 +52,7 @@ def attribute(prop, fail, known):
         if fail["clause"] not in k["clauses"]:
             continue
         scope = prop.SCOPES.get(k["scope"])
-        if scope is None or not scope(fail["case"]):
+        if scope is None or not scope(fail):
             continue
         fs = k.get("failing_set")
         if fs is not None and case_hash(fail["case"]) not in fs:
@@ -85,6 +85,9 @@ def run_check(pid, tier, seed, args):
                          only_policies=args.policies.split(",") if args.policies else None,
                          only_layers=args.layers.split(",") if args.layers else None,
                          budget_s=args.budget)
+    if args.dump_fails:
+        with open(args.dump_fails, "w") as f:
+            json.dump(res["fails"], f, default=str)
     known = load_known()
     unlisted, attributed = [], {}
     for f in res["fails"]:
@@ -133,6 +136,7 @@ def run_check(pid, tier, seed, args):
             "layers": res["layers"], "distinct_outcomes": res["outcomes"],
             "clauses": getattr(prop, "CLAUSES", []),
             "violations_per_clause": {c: len(v) for c, v in per_clause.items()},
+            "violations_per_clause_layer": _count(unlisted),
             "known_finding_cases": {known[i]["id"]: len(v) for i, v in attributed.items()},
             "hashseed": os.environ.get("PYTHONHASHSEED"),
             "order_hook": dict(loader.STATS), "repo": loader.REPO,
@@ -160,6 +164,14 @@ def run_check(pid, tier, seed, args):
             print("HARNESS-ERROR vacuous run: a single distinct outcome")
         return 2
     return 0
+
+
+def _count(fails):
+    out = {}
+    for f in fails:
+        k = f["clause"] + " @ " + f["layer"]
+        out[k] = out.get(k, 0) + 1
+    return out
 
 
 def run_replay(pid, path):
@@ -207,6 +219,7 @@ def main():
     ap.add_argument("--layers")
     ap.add_argument("--budget", type=float)
     ap.add_argument("--no-evidence", action="store_true")
+    ap.add_argument("--dump-fails")
     args = ap.parse_args()
     if args.tier not in ("quick", "thorough"):
         args.tier = "quick"
